@@ -1,1 +1,44 @@
-From JP Require Import Base.Json.
+(* C08 - Nodes carry exact locations and canonical, re-queryable normalized paths. *)
+From JP Require Import Base.Json Model.Ast Model.Eval Model.Serialize Spec.Sem Spec.NormPath Spec.Types.
+From JP Require Import Proofs.SerializeProofs Proofs.LocationProofs Proofs.FilterProofs.
+
+(* Following the location of any node of any RFC result (every query, filters included) from the root
+   reaches that node's value. *)
+Theorem C08_location_spec : forall rg rxf q v, wf_json v = true ->
+  Forall (fun n => lookup v (fst n) = Some (snd n)) (sem rg rxf q v).
+Proof.
+  intros rg rxf q v Hw. eapply Forall_impl; [|apply sem_located; exact Hw]. intros n [H _]. exact H.
+Qed.
+Print Assumptions C08_location_spec.
+
+(* ... and therefore of any result the evaluator model computes for a well-typed query *)
+Theorem C08_location : forall cfg, reg_ok (reg cfg) = true -> (1 <= max_depth cfg)%nat ->
+  forall q v ns, wt_query (reg cfg) q = true -> good cfg v -> m_find cfg q v = Ok ns ->
+  Forall (fun n => lookup v (fst n) = Some (snd n)) ns.
+Proof.
+  intros cfg Hr HN q v ns Hwt Hg E. rewrite (find_well_typed cfg Hr HN q v Hwt Hg) in E. inversion E; subst.
+  apply C08_location_spec. destruct Hg as [_ Hw]. exact Hw.
+Qed.
+Print Assumptions C08_location.
+
+(* locations never contain a negative index *)
+Theorem C08_indices_nonneg : forall loc root x, lookup root loc = Some x ->
+  Forall (fun k => match k with KIdx i => 0 <= i | _ => True end) loc.
+Proof. exact lookup_nonneg. Qed.
+Print Assumptions C08_indices_nonneg.
+
+(* JSONPathNode.path() - json.dumps escaping followed by the two replace passes, as written in serialize.py -
+   is the RFC 9535 normalized path of the location, for every location (every member name over all code points) *)
+Theorem C08_path_canonical : forall loc, Forall (fun k => match k with KIdx i => 0 <= i | _ => True end) loc ->
+  m_path loc = norm_path loc.
+Proof. exact path_is_norm_path. Qed.
+Print Assumptions C08_path_canonical.
+
+(* Full statement of the re-query half (NOT proved: needs the lexer/parser theorem on canonical texts; decided on
+   every generated node against the real code):
+     C08_requery : forall cfg v loc x, lookup v loc = Some x ->
+                   exists q, m_compile cfg (norm_path loc) = Ok q /\ m_find cfg q v = Ok [(loc, x)] *)
+
+Example C08_example :
+  m_path [KName [39; 0; 92; 34; 128512]%N; KIdx 3] = [36; 91; 39; 92; 39; 92; 117; 48; 48; 48; 48; 92; 92; 34; 128512; 39; 93; 91; 51; 93]%N.
+Proof. vm_compute. reflexivity. Qed.
